@@ -168,3 +168,68 @@ func checkRotationDivisors(c *core.Ctx) {
 		c.Unknown("C20.R9", "algorithm/givensRotation.Run", "divisions by inputs found", fd.Pos(), "the rotation generator no longer divides by its inputs: the rule has nothing to check")
 	}
 }
+
+// checkRequestedResults (C20.R10): the reductions and iterations return their orthogonal factor only when the caller asks for
+// it (option ComputeU{true}); otherwise the second result is nil. A caller that uses that result (calls a method on it or
+// passes it on) must have requested it, or forward its own option list: otherwise the first use dereferences nil.
+func checkRequestedResults(c *core.Ctx) {
+	c.Rule("C20.R10", "a caller that uses the optional factor returned by a Run routine (second result) passes ComputeU{...} or forwards its options", 3)
+	for _, p := range c.LibPkgs() {
+		info := p.TypesInfo
+		pkg := p
+		core.EachFunc(p, func(_ *ast.File, fd *ast.FuncDecl) {
+			ast.Inspect(fd.Body, func(n ast.Node) bool {
+				as, ok := n.(*ast.AssignStmt)
+				if !ok || len(as.Rhs) != 1 || len(as.Lhs) < 3 {
+					return true
+				}
+				ce, ok := ast.Unparen(as.Rhs[0]).(*ast.CallExpr)
+				if !ok {
+					return true
+				}
+				fn := core.Callee(info, ce)
+				if fn == nil || fn.Name() != "Run" || fn.Pkg() == nil || fn.Pkg() == pkg.Types {
+					return true
+				}
+				if fn.Pkg().Scope().Lookup("ComputeU") == nil {
+					return true
+				}
+				uid, ok := as.Lhs[1].(*ast.Ident)
+				if !ok || uid.Name == "_" {
+					return true
+				}
+				uobj := info.Defs[uid]
+				if uobj == nil {
+					uobj = info.Uses[uid]
+				}
+				// is the factor used other than in a nil test?
+				used := false
+				ast.Inspect(fd.Body, func(m ast.Node) bool {
+					if be, ok := m.(*ast.BinaryExpr); ok && (be.Op == token.EQL || be.Op == token.NEQ) {
+						if types.ExprString(be.Y) == "nil" || types.ExprString(be.X) == "nil" {
+							return false
+						}
+					}
+					if id, ok := m.(*ast.Ident); ok && id != uid && info.Uses[id] == uobj {
+						used = true
+					}
+					return true
+				})
+				if !used {
+					return true
+				}
+				requested := ce.Ellipsis.IsValid()
+				for _, a := range ce.Args {
+					if tv, ok := info.Types[a]; ok {
+						if nt, ok := tv.Type.(*types.Named); ok && nt.Obj().Name() == "ComputeU" {
+							requested = true
+						}
+					}
+				}
+				c.Check(requested, "C20.R10", c.FuncName(pkg, fd), "factor "+uid.Name+" of "+fn.Pkg().Name()+".Run is requested", ce.Pos(),
+					"the second result of "+fn.Pkg().Name()+".Run is used but the call passes no ComputeU option: the routine returns nil for it and the first use panics")
+				return true
+			})
+		})
+	}
+}
